@@ -1,3 +1,4 @@
+import WmModel.Props.C05Reg
 import WmModel.Props.C07
 #print axioms Wm.GcSub.never_panics
 #print axioms Wm.GcSub.close_flags_consistent
@@ -5,3 +6,7 @@ import WmModel.Props.C07
 #print axioms Wm.GcSub.close_progress
 #print axioms Wm.GcSub.outchan_closed_at_most_once
 #print axioms Wm.GcSub.closed_is_final
+#print axioms Wm.GcReg.registry_never_panics
+#print axioms Wm.GcReg.publish_after_close_errs
+#print axioms Wm.GcReg.subscribe_after_close_errs
+#print axioms Wm.GcReg.writer_unique
